@@ -160,3 +160,22 @@ register(
         assumptions=["disk model as stated by the property: program-ordered prefix, appends torn at byte granularity, in-place block rewrites atomic, both files cut at the same program point", "rules re-supplied at reopen = union of the rules before and after the interrupted request"],
     )
 )
+
+# ---------------------------------------------------------------------------
+from . import sched as S
+
+register(
+    _Spec(
+        "C16",
+        S.gen_C16,
+        S.run_C16,
+        1500,
+        30000,
+        "exploration",
+        "2-3 generator requests (crawl-batch indexing, rule installation, webentity page query, network query, one-step writers) on a seeded pre-populated index, advanced by a seeded scheduler (5 policies) with every loop iteration a yield point; raw-store snapshot after every scheduler step; non-trivial when >= 1 context switch happened with a writer among >= 2 tasks; distinct = distinct event digests (schedule + write log); distinct_schedules also reported",
+        "cooperative scheduler",
+        components_stub=STUBS + ["TraphIteratorState.should_yield -> always yield (scheduler-owned)"],
+        fault_kinds=["context_switch", "context_switch_after_write", "sched_steps"],
+        assumptions=["snapshots are parsed from raw bytes by the independent parser (sim/fsck.py)", "for the network query the two ends of a link are sampled independently over the query's lifetime (the statement defines no simultaneity for a two-ended item)"],
+    )
+)
